@@ -39,3 +39,5 @@ def run(F, rep):
     rep.run(dt_strings.avx_kernels, F, rep, "C14.2", thorough=False)
     rep.run(dt_strings.byte_tables, F, rep, "C14.2")
     rep.run(dt_strings.from_str_lemmas, F, rep, "C14.2")
+    # base iteration by reference (`for b in &x`): exact, whatever iterator type implements it
+    rep.run(lemmas.container_iter_lemmas, F, rep, "C14.6", conts=("string",), quick=(rep.tier != "thorough"))
